@@ -63,7 +63,7 @@ def ipf_line(pal, nw, ops):
 
 
 def gen_ipf(tier, rng):
-    out = []
+    out = ["ipfsizes 48"]   # 28 trivially copyable capture sizes (6..32 bytes) + 20 non-trivial ones (16..32 bytes)
     quick = tier == "quick"
     nw = 2
     full = full_alphabet(nw)
@@ -118,7 +118,7 @@ def gen_tables(tier, rng):
     for tc in R4:
         for k in R6:
             out.append(f"get {tc} {k}")
-            for k2 in R6:
+            for k2 in (0, 3, 4):
                 out.append(f"pget {tc} {k} {k2}")
     for t in R6:
         for u in R4:
@@ -155,12 +155,12 @@ def gen_tables(tier, rng):
             for k1 in R6:
                 out.append(f"apply {fc} {tc} 1 {k1}")
         for k1 in R6:
-            for k2 in R6:
+            for k2 in (0, 2, 5):
                 out.append(f"apply 0 {tc} 2 {k1} {k2}")
         out.append(f"mft 0 {tc} 0")
         for k1 in R6:
             out.append(f"mft 0 {tc} 1 {k1}")
-            for k2 in R6:
+            for k2 in (0, 2, 5):
                 out.append(f"mft 0 {tc} 2 {k1} {k2}")
         for which in range(2):
             out.append(f"applyp {tc} {which}")
